@@ -113,7 +113,7 @@ class Engine:
 
     def feasible(self, st):
         if not self.prune: return True
-        t = time.time(); s = z3.Solver(); s.set(timeout=200); s.add(*st.pc); s.add(*self.defs); r = s.check()
+        t = time.time(); s = z3.Solver(); s.set(timeout=500); s.add(*st.pc); s.add(*self.defs); r = s.check()
         self.stats["solver_prune_s"] += time.time() - t
         if r == z3.unsat: self.stats["paths_pruned"] += 1; return False
         return True
